@@ -554,6 +554,10 @@ mod huffman {
                     }
                 }
             }
+            if let [(level, _)] = &mut levels[..] {
+                // A single symbol still needs one bit, or items would have no length.
+                *level = 1;
+            }
             levels.sort_by(|x, y| x.0.cmp(&y.0));
             let mut code: u64 = 0;
             let mut prev_level = 0;
@@ -568,6 +572,11 @@ mod huffman {
                 Self::insert_decode(&mut decode, sym, level, code << (64 - level));
 
                 code += 1;
+            }
+            if let (1, Some(sym)) = (encode.len(), encode.keys().next()) {
+                // Only the code `0` is ever written; let `1` decode to the same symbol
+                // so that the table is total.
+                Self::insert_decode(&mut decode, sym, 1, 1 << 63);
             }
 
             for (index, entry) in decode.iter().enumerate() {
